@@ -304,6 +304,9 @@ def step (_ : Unit) (t : List String) : Unit × String :=
   match t with
   | "prog" :: rest => ((), runLine rest)
   | "kf" :: key :: "prog" :: rest => ((), runKnown key rest)
+  -- extended program (source text outside the model's fragment): no prediction,
+  -- the harness compares the GnoVM with native Go only
+  | ["xprog", src] => ((), if (hexToBytes src).isSome && src != "e" then "ext" else "err:badop")
   | _ => ((), "err:badop")
 
 end GnoVerif.Drive.C04
